@@ -1375,6 +1375,11 @@ fn preprocess_initial_file(
             Err(_) => return Err(PreprocessError::InvalidDefine(SourceLocation::UNKNOWN)),
         };
 
+        // A macro body is a single logical line - the expansion code relies on that
+        if tokens.iter().any(|t| t.0 == Token::Endline) {
+            return Err(PreprocessError::InvalidDefine(SourceLocation::UNKNOWN));
+        }
+
         macros.push(Macro {
             name: name.to_string(),
             is_function: false,
